@@ -309,9 +309,12 @@ done:
       flags |= ARES_CONN_STATE_WRITE;
     }
 
-    /* If using TCP and not all data was written (partial write), that means
-     * we need to also wait on a write event */
-    if (conn->flags & ARES_CONN_FLAG_TCP && ares_buf_len(conn->out_buf)) {
+    /* If not all data was written (partial TCP write, or the socket - TCP or
+     * UDP - would block), that means we need to also wait on a write event.
+     * Without it a datagram left in the buffer is only sent when something
+     * else happens to write to this connection, typically the query's own
+     * timeout. */
+    if (ares_buf_len(conn->out_buf)) {
       flags |= ARES_CONN_STATE_WRITE;
     }
 
